@@ -93,6 +93,8 @@ def constructor_attributes(init: ast.FunctionDef) -> dict:
 
 
 class ProjectorModel:
+    _current = None
+
     def __init__(self, repo: Repo):
         self.repo = repo
         self.cls = repo.find(CLS, RULE)
@@ -172,7 +174,11 @@ class ProjectorModel:
             for k in CACHE_OP:
                 if k not in own and state["caches"][k] is None:
                     state["caches"][k] = self._ideal(CACHE_OP[k], (R, L))
-        result = self._run_block(f.body, state, rep, f, depth)
+        outer, self._current = getattr(self, "_current", None), f
+        try:
+            result = self._run_block(f.body, state, rep, f, depth)
+        finally:
+            self._current = outer
         if result is None:
             raise AnalysisError(RULE, f"{name}: no return value found")
         self._memo[key] = result
@@ -184,33 +190,61 @@ class ProjectorModel:
             return st["self"]
         return v
 
+    def _own_dtype_is_real(self, st):
+        """Whether ``self.dtype`` is a real dtype in the current mode, read from the dtype handed to LinearOperator.__init__."""
+        init = self.resolve("__init__")
+        for n in ast.walk(init) if init is not None else ():
+            if isinstance(n, ast.Call) and norm(n.func) in ("super().__init__", "LinearOperator.__init__"):
+                for k in n.keywords:
+                    if k.arg == "dtype":
+                        e = k.value
+                        parts = e.args if isinstance(e, ast.Call) and call_name(e) in ("np.result_type", "np.promote_types", "np.common_type") else [e]
+                        atoms = []
+                        for a in parts:
+                            t = norm(a)
+                            if t in ("self._vecs.dtype", "vecs.dtype", "self._vecs", "vecs"):
+                                atoms.append("R")
+                            elif t in ("self._left_vecs.dtype", "self._left_vecs"):
+                                atoms.append("R" if st["hermitian"] else "L")
+                            else:
+                                raise AnalysisError(RULE, f"dtype of the projector `{norm(e)}` not understood")
+                        return all(a in self.real for a in atoms)
+        raise AnalysisError(RULE, "dtype handed to LinearOperator.__init__ not found")
+
+    def _condition(self, test, st, f):
+        """Truth value of a branch condition of a projector method in the current mode (hermitian flag, cache state, dtypes)."""
+        if isinstance(test, ast.BoolOp):
+            vals = [self._condition(v, st, f) for v in test.values]
+            return all(vals) if isinstance(test.op, ast.And) else any(vals)
+        if isinstance(test, ast.UnaryOp) and isinstance(test.op, ast.Not):
+            return not self._condition(test.operand, st, f)
+        t = norm(test)
+        for attr in CACHE_OP:
+            if t == f"self.{attr} is None":
+                return self._cache_value(st, attr) is None
+            if t == f"self.{attr} is not None":
+                return self._cache_value(st, attr) is not None
+        if t == "self._hermitian":
+            return st["hermitian"]
+        # dtype predicates on the stored vectors
+        for txt, atomname in (("self._vecs", "R"), ("self._left_vecs", "R" if st["hermitian"] else "L")):
+            is_real = atomname in self.real
+            if t in (f"np.iscomplexobj({txt})", f"np.iscomplexobj({txt}.dtype)", f"np.issubdtype({txt}.dtype, np.complexfloating)"):
+                return not is_real
+            if t in (f"np.isrealobj({txt})", f"np.isrealobj({txt}.dtype)"):
+                return is_real
+        if t in ("np.issubdtype(self.dtype, np.complexfloating)", "np.iscomplexobj(self.dtype)", "self.dtype.kind == 'c'"):
+            return not self._own_dtype_is_real(st)
+        if t in ("np.isrealobj(self.dtype)", "self.dtype.kind != 'c'"):
+            return self._own_dtype_is_real(st)
+        raise AnalysisError(RULE, f"{getattr(f, 'name', CLS)}: condition `{t}` not understood")
+
     def _run_block(self, stmts, st, rep, f, depth):
         for s in stmts:
             if isinstance(s, ast.Expr) and isinstance(s.value, ast.Constant):
                 continue
             if isinstance(s, ast.If):
-                t = norm(s.test)
-                val = None
-                for attr in CACHE_OP:
-                    if t == f"self.{attr} is None":
-                        val = self._cache_value(st, attr) is None
-                    if t == f"self.{attr} is not None":
-                        val = self._cache_value(st, attr) is not None
-                if t == "self._hermitian":
-                    val = st["hermitian"]
-                if t == "not self._hermitian":
-                    val = not st["hermitian"]
-                # dtype predicates on the stored vectors
-                for txt, atomname in (("self._vecs", "R"), ("self._left_vecs", "R" if st["hermitian"] else "L")):
-                    is_real = atomname in self.real
-                    if t in (f"np.iscomplexobj({txt})", f"np.iscomplexobj({txt}.dtype)"):
-                        val = not is_real
-                    if t in (f"not np.iscomplexobj({txt})", f"np.isrealobj({txt})"):
-                        val = is_real
-                    if t == f"not np.isrealobj({txt})":
-                        val = not is_real
-                if val is None:
-                    raise AnalysisError(RULE, f"{f.name}: condition `{t}` not understood")
+                val = self._condition(s.test, st, f)
                 r = self._run_block(s.body if val else s.orelse, st, rep, f, depth)
                 if r is not None:
                     return r
@@ -268,9 +302,8 @@ class ProjectorModel:
             return v[1] if v is not None and v[0] == "ast" else None
         env = dict(st["arrays"])
         # IfExp on the hermitian flag inside array expressions
-        if isinstance(e, ast.IfExp) and norm(e.test) in ("self._hermitian", "not self._hermitian"):
-            pick = st["hermitian"] if norm(e.test) == "self._hermitian" else not st["hermitian"]
-            return self._array(e.body if pick else e.orelse, st)
+        if isinstance(e, ast.IfExp):
+            return self._array(e.body if self._condition(e.test, st, self._current) else e.orelse, st)
         if isinstance(e, ast.Name) and e.id in st["locals"]:
             kind, v = st["locals"][e.id]
             if kind == "arr":
@@ -297,9 +330,8 @@ class ProjectorModel:
                 if kind == "ast":
                     return self._op_value(v, st, depth)
                 raise AnalysisError(RULE, f"array-valued local `{e.id}` used as an operator")
-        if isinstance(e, ast.IfExp) and norm(e.test) in ("self._hermitian", "not self._hermitian"):
-            pick = st["hermitian"] if norm(e.test) == "self._hermitian" else not st["hermitian"]
-            return self._op_value(e.body if pick else e.orelse, st, depth)
+        if isinstance(e, ast.IfExp):
+            return self._op_value(e.body if self._condition(e.test, st, self._current) else e.orelse, st, depth)
         d = dotted(e)
         if d and d.startswith("self.") and d[5:] in CACHE_OP:
             return self._cache_value(st, d[5:])
@@ -364,15 +396,35 @@ def rule_projector(rep: Report, repo: Repo):
     if herm is not None:
         from .sem import Scope, inline
         herm = inline(herm, Scope(repo.trees["linalg"], init))  # a module-level predicate helper is expanded
-        def disjuncts(e):
-            if isinstance(e, ast.BoolOp) and isinstance(e.op, ast.Or):
-                return [d_ for v_ in e.values for d_ in disjuncts(v_)]
-            return [e]
-        atoms = disjuncts(herm)
-        allowed = {f"{left_p} is None", f"{left_p} is {vecs_p}", f"{vecs_p} is {left_p}",
-                   f"np.array_equal({left_p}, {vecs_p})", f"np.array_equal({vecs_p}, {left_p})"}
-        texts = {norm(x) for x in atoms}
-        ok = texts <= allowed and f"{left_p} is None" in texts
+        from .paths import eval_bool as _eb
+        # four situations: L omitted; L the same object as R; L another array with the same entries; L a different array
+        table = {}
+        for sit in ("omitted", "same object", "equal entries", "close entries", "different"):
+            def atom(n, sit=sit):
+                if isinstance(n, ast.Compare) and len(n.ops) == 1 and isinstance(n.ops[0], (ast.Is, ast.IsNot)):
+                    l_, r_ = norm(n.left), norm(n.comparators[0])
+                    if {l_, r_} == {left_p, "None"}:
+                        v = sit == "omitted"
+                    elif {l_, r_} == {left_p, vecs_p}:
+                        v = sit == "same object"
+                    else:
+                        return None
+                    return v if isinstance(n.ops[0], ast.Is) else not v
+                if isinstance(n, ast.Call) and call_name(n) in ("np.array_equal", "np.array_equiv") and len(n.args) == 2 \
+                        and {norm(n.args[0]), norm(n.args[1])} == {left_p, vecs_p}:
+                    return sit in ("same object", "equal entries")
+                if isinstance(n, ast.Call) and call_name(n) in ("np.allclose", "np.isclose") and len(n.args) >= 2 \
+                        and {norm(n.args[0]), norm(n.args[1])} == {left_p, vecs_p}:
+                    return sit in ("same object", "equal entries", "close entries")
+                if isinstance(n, ast.Compare) and len(n.ops) == 1 and isinstance(n.ops[0], (ast.Eq, ast.NotEq)) \
+                        and {norm(n.left), norm(n.comparators[0])} in ({f"{left_p}.shape", f"{vecs_p}.shape"}, {f"{left_p}.dtype", f"{vecs_p}.dtype"}):
+                    # a left basis has the shape (and, in the situations considered, the dtype) of the right one
+                    return None if sit == "omitted" else isinstance(n.ops[0], ast.Eq)
+                return None
+            table[sit] = _eb(herm, atom)
+        if None in table.values():
+            raise AnalysisError(RULE, f"{CLS}.__init__: `_hermitian = {norm(herm)[:80]}` is not decided by (L omitted / same object / equal / close / different)")
+        ok = table == {"omitted": True, "same object": True, "equal entries": True, "close entries": False, "different": False}
     rep.check(ok, RULE, f"{CLS}.__init__ `_hermitian` holds only when L equals R (or is omitted)",
               norm(herm) if herm is not None else "missing", loc(init))
     lv = a.get("_left_vecs")
@@ -439,8 +491,8 @@ def rule_projector(rep: Report, repo: Repo):
                          f"SciPy contract: {slot} must compute {txt} = {ld.show(want)} with P = 1 - R.L^H", loc(f))
     # -- adjoint / conjugate / transpose objects ------------------------------------------
     # dtype-dependent branches: which of R, L are real arrays (conj(X) = X for a real X)
-    uses_dtype = any("iscomplexobj" in norm(n) or "isrealobj" in norm(n) for meth in METHOD_OP for n in ast.walk(m.resolve(meth) or ast.Pass())
-                     if isinstance(n, ast.If))
+    uses_dtype = any(any(w in norm(n.test) for w in ("iscomplexobj", "isrealobj", "dtype")) for meth in METHOD_OP
+                     for n in ast.walk(m.resolve(meth) or ast.Pass()) if isinstance(n, (ast.If, ast.IfExp)))
     real_modes = [frozenset()] if not uses_dtype else None
     for meth, op in METHOD_OP.items():
         for hermitian in (True, False):
@@ -553,11 +605,18 @@ def rule_projector_call_sites(rep: Report, repo: Repo, with_op_eval: bool = True
             if isinstance(node, ast.Call) and call_name(node) == "ComplementProjector":
                 n += 1
                 args = [norm(a) for a in node.args] + [f"{k.arg}={norm(k.value)}" for k in node.keywords]
-                roles = [_role(a) for a in args]
-                ok = roles[0] == "right" and (len(roles) == 1 or roles[1] == "left")
+                # bind to (vecs, left_vecs); what the names say about the family they hold ("left" / "right" in the spelling) is
+                # the only information a call site gives: a contradiction is reported, silence is not
+                bound = dict(zip(("vecs", "left_vecs"), [norm(a) for a in node.args]))
+                bound.update({k.arg: norm(k.value) for k in node.keywords if k.arg})
+                if set(bound) - {"vecs", "left_vecs"} or "vecs" not in bound:
+                    raise AnalysisError(R, f"`ComplementProjector({', '.join(args)})`: arguments not understood")
+                hint = lambda t: "left" if "left" in t else ("right" if "right" in t else None)
+                hv, hl = hint(bound["vecs"]), hint(bound.get("left_vecs", "None"))
+                ok = hv != "left" and hl != "right"
                 fn = _enclosing(node)
                 rep.check(ok, R, f"{mod}::{fn} `ComplementProjector({', '.join(args)})` passes (right vectors, left vectors)",
-                          f"argument roles {roles}", repo.loc(mod, node))
+                          f"vecs <- {bound['vecs'][:50]} ({hv or 'no hint'}), left_vecs <- {bound.get('left_vecs', 'omitted')[:50]} ({hl or 'no hint'})", repo.loc(mod, node))
     rep.floor(R, "ComplementProjector construction sites", n, 4)
     if with_op_eval:
         _operator_to_blockseries(rep, repo, R)
@@ -614,7 +673,8 @@ def _operator_to_blockseries(rep: Report, repo: Repo, R: str):
                         if isinstance(v, ast.Call) and call_name(v) == "len" and len(v.args) == 1:
                             sub[norm(v)] = N
                             sub[k] = N
-                    atom = lambda n, sub=sub: _const_eval(n, sub)
+                    # locals of the enclosing function (hoisted sub-expressions such as `last_block = n_blocks - 1`) are read through
+                    atom = lambda n, sub=sub: _const_eval(resolved(n, outer_env), sub)
                     for o in outcomes(ev.body, scope, env={}, atom=atom, expand=False):
                         if o.kind != "return":
                             continue
@@ -678,8 +738,9 @@ def _operator_to_blockseries(rep: Report, repo: Repo, R: str):
     nbs = [v_ for v_ in outer_env.values() if isinstance(v_, ast.Call) and call_name(v_) == "len" and len(v_.args) == 1]
     if not nbs:
         raise AnalysisError(R, "operator_to_BlockSeries: the number of blocks is not a straight-line local of the form len(<projectors>)")
-    rep.check(all(norm(nb) in (f"len({RP})", f"len({LP})") for nb in nbs), R, "operator_to_BlockSeries number of blocks = number of projectors",
-              str([norm(nb) for nb in nbs]), loc(f))
+    allowed_nb = {f"len({RP})", f"len({LP})"} | {norm(resolved(ast.parse(f"len({X_})", mode="eval").body, outer_env)) for X_ in (RP, LP)}
+    rep.check(all(norm(nb) in allowed_nb for nb in nbs), R, "operator_to_BlockSeries number of blocks = number of projectors",
+              str([norm(nb)[:80] for nb in nbs]), loc(f))
     # -- the two families -------------------------------------------------------------------------------------------
     un = [s for s in own_nodes(f) if isinstance(s, ast.Assign) and isinstance(s.targets[0], ast.Tuple)
           and isinstance(s.value, ast.Call) and call_name(s.value) == "_normalize_subspace_eigenvectors"]
